@@ -6,13 +6,13 @@ CXX := clang++
 GEN := $(B)/gen
 HDRS := $(shell find $(INC) -name '*.hpp') $(wildcard sim/*.hpp)
 NTU := 16
-SHAPE_SRCS := $(foreach k,$(shell seq 0 15),$(GEN)/shapes_$(k).cpp) $(GEN)/shape_table.cpp
+SHAPE_SRCS := $(foreach k,$(shell seq 0 15),$(GEN)/shapes_$(k).cpp) $(GEN)/shape_table.cpp $(GEN)/wide.cpp
 EXEC_SRCS := sim/exec_a.cpp sim/exec_b.cpp sim/exec_c.cpp sim/exec_d.cpp sim/main.cpp
 
 HFLAGS := -std=c++14 -O0 -g -fno-omit-frame-pointer -fsanitize=address,undefined -fno-sanitize-recover=undefined -DTROMPELOEIL_SANITY_CHECKS -I$(INC) -Isim -Wno-unused-value
 H_OBJS := $(patsubst $(GEN)/%.cpp,$(B)/H/%.o,$(SHAPE_SRCS)) $(patsubst sim/%.cpp,$(B)/H/%.o,$(EXEC_SRCS))
 
-all: $(B)/simH $(B)/simT $(B)/simTa $(B)/simC
+all: $(B)/simH $(B)/simT $(B)/simTa $(B)/simC $(B)/simTc
 
 $(GEN)/stamp: tools/gen_shapes.py
 	@mkdir -p $(GEN)
@@ -66,3 +66,15 @@ CFLAGS20 := -std=c++20 -O0 -g -fno-omit-frame-pointer -fsanitize=address,undefin
 $(B)/simC: sim/coro_main.cpp $(HDRS)
 	@mkdir -p $(B)
 	$(CXX) $(CFLAGS20) $< -o $@
+
+# ---- Mode T with the library's custom-mutex customisation point (thorough tier of C12) ----
+TCFLAGS := $(TFLAGS) -DTROMPELOEIL_CUSTOM_RECURSIVE_MUTEX -DSIM_BINARY_NAME='"simTc"'
+TC_OBJS := $(patsubst $(GEN)/%.cpp,$(B)/TC/%.o,$(SHAPE_SRCS)) $(patsubst sim/%.cpp,$(B)/TC/%.o,$(T_SRCS))
+$(B)/TC/%.o: $(GEN)/%.cpp $(HDRS) $(GEN)/stamp
+	@mkdir -p $(B)/TC
+	$(CXX) $(TCFLAGS) -c $< -o $@
+$(B)/TC/%.o: sim/%.cpp $(HDRS) $(GEN)/stamp
+	@mkdir -p $(B)/TC
+	$(CXX) $(TCFLAGS) -c $< -o $@
+$(B)/simTc: $(TC_OBJS) $(B)/T/sched.o
+	$(CXX) $(TCFLAGS) $(WRAP) $^ -o $@
